@@ -55,6 +55,7 @@ def check(P, R):
                                      'C13.c', bm_, decs_)
     from . import c07 as _c07
     _c07.check_upload_window(P, _Sub13(R, why='a body larger than the in-memory threshold is kept on disk, not loaded: an upload reads its own part only'), 'C13.c')
+    check_single_reader(P, R, 'C13.a')
     f = P.func(f'{BM}:_body_read')
     g, rd = f.cfg, f.rd
     fors = [n for n in walk_shallow(f.node) if isinstance(n, ast.For)]
@@ -225,6 +226,20 @@ def check(P, R):
                                    f'on the first part that exceeds the threshold')
                 det = '' if ok else det
         R.ob('C13.c', f, d.stmt, ok, detail=det, why='a body larger than the in-memory threshold is kept on disk under both framings')
+        # the switch happens, or the reader fails: no way back into the loop (or out of the function with a buffer) once the size test said "over the threshold"
+        # except through the completed switch
+        if test is not None and has_tmp:
+            tn_ = [n for n in g.nodes_for(test.test) if n.kind == 'test']
+            exc_succ = [m for (m, lab) in d.node.succ if lab == 'exc']
+            back = set()
+            for m in exc_succ:
+                back |= g.reachable_from([m])
+            resumed = [m for m in (head, g.exit) if m in back and (m is head or any(
+                isinstance(p.ast, ast.Return) for (p, lab) in m.pred if p in back and p.kind == 'stmt'))]
+            okf = not resumed
+            R.ob('C13.c', f, d.stmt, okf, text=f'`{short(d.stmt)}`: a failed switch ends the reader', detail='' if okf else
+                 f'when `{short(d.stmt)}` fails the exception is caught and the reader goes on: the parts keep accumulating in the in-memory buffer although the size test '
+                 f'said the body is over the threshold', why='a body larger than the in-memory threshold is kept on disk rather than in memory', key_extra='switch-or-fail')
     # the initial buffer is an in-memory BytesIO (the spill is the only way to a file) or the file from the start
     init = [d for d in rd.at(head, body) if not T._inside(d.stmt, loop.body)]
     def _ctor(v):
@@ -302,6 +317,42 @@ def check(P, R):
     from . import c06
     c06.check_scanner_fed(P, R, 'C13.c', why='a body larger than the in-memory threshold is kept on disk with identical content (its parts included)')
     check_memory_budget(P, R)
+
+
+def check_single_reader(P, R, rid):
+    """the limit and the spill live in _body_read: the framing readers and the input stream are used by nobody else"""
+    seen = 0
+    for f in P.all_funcs():
+        if not f.module.name.startswith('ombott.request_pkg'):
+            continue
+        for x in walk_shallow(f.node):
+            what = None
+            if isinstance(x, ast.Name) and x.id in ('_iter_body', '_iter_chunked') and isinstance(x.ctx, ast.Load) and not f.rd.is_local(x.id):
+                what = x.id
+            elif isinstance(x, ast.Subscript) and isinstance(x.slice, ast.Constant) and x.slice.value == 'wsgi.input' and isinstance(x.ctx, ast.Load):
+                what = "environ['wsgi.input']"
+            if what is None:
+                continue
+            seen += 1
+            if what.startswith('_iter'):
+                ok = f.fq == f'{BM}:_body_read'
+            else:
+                # the stream's read method is handed to _body_read and to nothing else
+                par = getattr(x, '_parent', None)
+                call = enclosing(x, ast.Call)
+                ok = call is not None and (dotted(call.func) or '').split('.')[-1] == '_body_read'
+                if not ok:
+                    ns_ = f.cfg.node_of_stmt(x)
+                    st_ = ns_[0].ast if ns_ else None
+                    if isinstance(st_, ast.Assign) and len(st_.targets) == 1 and isinstance(st_.targets[0], ast.Name):
+                        nm = st_.targets[0].id
+                        uses = [u for u in walk_shallow(f.node) if isinstance(u, ast.Name) and u.id == nm and isinstance(u.ctx, ast.Load)]
+                        ok = bool(uses) and all((lambda c_: c_ is not None and (dotted(c_.func) or '').split('.')[-1] == '_body_read')(enclosing(u, ast.Call)) for u in uses)
+            R.ob(rid, f, x, ok, text=f'`{what}` used in {f.fq.split(":")[1]}: only _body_read reads the stream', detail='' if ok else
+                 f'`{what}` is used in {f.fq.split(":")[1]} outside _body_read, the one place where max_body_size is enforced and the roll-over to disk happens: the bytes read '
+                 f'here are neither counted against the limit nor moved out of memory',
+                 why='a body larger than the configured maximum is rejected with 413 under both framings', key_extra=f'single-reader:{what}')
+    R.require(seen >= 3, f'uses of the framing readers / the input stream: {seen} found, 3 confirmed by hand')
 
 
 def check_memory_budget(P, R):
@@ -396,6 +447,58 @@ def check_memory_budget(P, R):
         R.ob('C13.e', fi, c, ok, text='budget lowered by what the field read', detail='' if ok else
              'the in-memory budget is not reduced by the bytes each field consumed: n fields may load n * threshold bytes')
     check_get_body_string(P, R, 'C13.e')
+    check_buffer_consumers(P, R, 'C13.e')
+
+
+def check_buffer_consumers(P, R, rid):
+    """the parsed-body accessors get the text of the body from _get_body_string (which refuses what is over the threshold) and hand the buffer itself only to
+    the budgeted field reader: nobody else loads it"""
+    cls_ = P.cls(f'{BM}:BodyMixin')
+    seen = 0
+    for mname, m in sorted(cls_.methods.items()):
+        if mname in ('_get_body_string', 'body', '_body'):
+            continue
+        g, rd = m.cfg, m.rd
+
+        def is_buf(e, at):
+            if isinstance(e, ast.Attribute) and src(e) in ('self.body', 'self._body'):
+                return True
+            if isinstance(e, ast.Name) and rd.is_local(e.id):
+                ds = rd.root_defs(at, e.id)
+                return bool(ds) and all(d.value is not None and isinstance(d.value, ast.Attribute) and src(d.value) in ('self.body', 'self._body') for d in ds)
+            return False
+        for c in walk_shallow(m.node):
+            if not isinstance(c, ast.Call):
+                continue
+            ns_ = g.node_of_stmt(c)
+            if not ns_:
+                continue
+            at = ns_[0]
+            bad = None
+            if isinstance(c.func, ast.Attribute) and is_buf(c.func.value, at):
+                if c.func.attr in ('read', 'readline', 'readlines', 'getvalue', 'getbuffer', 'read1', 'readinto', '__iter__', '__next__'):
+                    if not (c.args and isinstance(c.args[0], ast.Constant) and isinstance(c.args[0].value, int) and 0 <= c.args[0].value <= 65536):
+                        bad = f'`{short(c)}` reads the buffer'
+                else:
+                    seen += 1
+            for a in list(c.args) + [k.value for k in c.keywords]:
+                if is_buf(a, at):
+                    seen += 1
+                    callee = (dotted(c.func) or '').split('.')[-1]
+                    if callee not in ('iter_items',):
+                        bad = f'`{short(c)}` hands the buffer to `{dotted(c.func) or short(c.func)}`'
+            if bad:
+                R.ob(rid, m, c, False, text=f'{mname}: {bad}', detail=
+                     f'{bad}: the text of a body is loaded through _get_body_string (refuses more than max_memfile_size) and the buffer goes to FieldStorage.iter_items '
+                     f'(budgeted) only - here a body of any size, spooled to disk because it is over the threshold, is loaded into memory',
+                     why='form text larger than the in-memory threshold is refused rather than loaded', key_extra='buffer-consumer')
+        for lp in [x for x in walk_shallow(m.node) if isinstance(x, (ast.For, ast.comprehension))]:
+            ns_ = g.node_of_stmt(lp) if isinstance(lp, ast.For) else None
+            if ns_ and is_buf(lp.iter, ns_[0]):
+                R.ob(rid, m, lp, False, text=f'{mname}: iterates the buffer', detail='the buffer is read line by line without any budget',
+                     why='form text larger than the in-memory threshold is refused rather than loaded', key_extra='buffer-consumer')
+    R.require(seen >= 1, 'no use of the body buffer found in the accessors (iter_items hand-over expected)')
+    R.ob(rid, cls_.fq, None, True, text=f'{seen} use(s) of the body buffer in the accessors: handed to iter_items / attribute access only', key_extra='buffer-consumer-summary')
 
 
 def check_rewind(P, R, rid, why):
